@@ -151,3 +151,41 @@ func VerifH_C13_pow_cells() {
 	verifCover("reached")
 	verifAssertK(sameF64(got, want), "C13-pow-1-nan", cell == 0 && x == 1, "ES5 15.8.2.13 Math.pow special case")
 }
+
+// isNaN / isFinite (15.1.2.4-5) on every double, and through ToNumber on the
+// other primitive kinds; the value properties NaN / Infinity / undefined of the
+// global object cannot be overwritten (15.1.1).
+func VerifH_C13_global_predicates() {
+	vm := New()
+	x := verifNondetFloat64()
+	vm.Set("x", x)
+	verifCover("reached")
+	switch verifChoose(3) {
+	case 0:
+		v, ok := verifRun(vm, "[isNaN(x), isFinite(x), isNaN(-x), isFinite(-x)]")
+		if ok {
+			o := v.Object()
+			a, _ := o.Get("0")
+			b, _ := o.Get("1")
+			c, _ := o.Get("2")
+			d, _ := o.Get("3")
+			ab, _ := a.ToBoolean()
+			bb, _ := b.ToBoolean()
+			cb, _ := c.ToBoolean()
+			db, _ := d.ToBoolean()
+			fin := x == x && math.Abs(x) <= math.MaxFloat64
+			verifAssert(ab == (x != x) && cb == (x != x), "15.1.2.4 isNaN")
+			verifAssert(bb == fin && db == fin, "15.1.2.5 isFinite")
+		}
+	case 1:
+		v, ok := verifRun(vm, "[isNaN(undefined), isNaN(null), isNaN(true), isNaN(''), isNaN(' '), isNaN('x'), isNaN({}), isNaN([]), isNaN([7]), isFinite(null), isFinite(undefined), isFinite('Infinity'), isFinite('1e400')].join()")
+		if ok {
+			verifAssert(v.String() == "true,false,false,false,false,true,true,false,false,true,false,false,false", "isNaN / isFinite apply ToNumber first")
+		}
+	default:
+		v, ok := verifRun(vm, "NaN = x; Infinity = x; undefined = x; [NaN !== NaN, Infinity === 1/0, undefined === void 0, delete NaN, delete Infinity].join()")
+		if ok {
+			verifAssert(v.String() == "true,true,true,false,false", "15.1.1: NaN, Infinity and undefined are read-only, non-configurable")
+		}
+	}
+}
